@@ -360,6 +360,17 @@ def run_case(ctx, rng):
     call_kw = dict(kw)
     if order is not None:
         call_kw['_order_by'] = order
+    if rng.random() < 0.05:
+        # a call with a malformed condition is refused (ValueError) - and leaves nothing behind in the
+        # long-lived method object
+        try:
+            method("rows").list(conn, ('n', 'BETWEEN', 3))
+            ctx.violation("unsupported-operation-accepted", {"op": "BETWEEN"}, case)
+        except ValueError:
+            ctx.count("malformed_conditions_refused")
+        except Exception as err:
+            ctx.violation("query-raises", {"type": type(err).__name__, "msg": str(err)[:150], "stmt": None}, case)
+        del conn.log[:]
     try:
         if mode == "count":
             m = method("count") if rng.random() < 0.8 else SqlMethod("SELECT count(*) AS cnt, max(id) AS top FROM t")
